@@ -275,9 +275,9 @@ pub fn run(cfg: &Cfg) -> i32 {
         cfg,
         "exploration",
         "case = one input text given to the compiler (with an in-memory INCLUDE handler): corpus sources and generated programs after 1-3 byte/char/token/line-level mutations (delete, insert or replace tokens from Ink's punctuation and keywords, delete/duplicate/swap lines, splice with another source, rename one identifier use, unbalance brackets/quotes, insert multi-byte characters next to braces and quotes, insert directives), token soup, nesting bombs. Monitored: no panic (caught, attributed to a compiler function), no process death (journal), an error's line lies inside the input, Ok output is byte-identical on recompilation, loads in the runtime, and an independent static walk resolves every ->, f(), ->t->, choice target, CNT?, ^-> path exactly and finds every VAR?/VAR=/temp= reassignment name declared and every x() declared by an EXTERNAL line. Non-trivial = the input is not one of the unmutated base texts; distinct by input text.",
-        cfg.pick(15_000, 300_000),
+        cfg.pick(15_000, 2_000_000),
     );
-    let ncases = cfg.get_u64("cases", cfg.pick(40_000, 800_000));
+    let ncases = cfg.get_u64("cases", cfg.pick(40_000, 6_000_000));
     // base pool
     let mut pool: Vec<(String, String)> = Vec::new();
     for it in corpus::list(&cfg.corpus_dir()) {
